@@ -861,6 +861,16 @@ func (c *TermCtx) FCmp(op Op, a, b *Term) *Term {
 	if a.sort != b.sort {
 		panic("FCmp sort mismatch")
 	}
+	// widening float32 -> float64 is exact and order preserving: compare the narrow values instead
+	if a.sort.K == SF64 {
+		na, nb := narrowF32(c, a), narrowF32(c, b)
+		if na != nil && nb != nil {
+			a, b = na, nb
+		}
+	}
+	if a == b && op == OFLt {
+		return c.False // x < x is false for every float, NaN included
+	}
 	return c.mk(op, BoolSort, a, b)
 }
 func (c *TermCtx) FUn(op Op, a *Term) *Term {
@@ -870,7 +880,16 @@ func (c *TermCtx) FUn(op Op, a *Term) *Term {
 	}
 	return c.mk(op, s, a)
 }
-func (c *TermCtx) Conv(op Op, a *Term, to Sort) *Term { return c.mk(op, to, a) }
+func (c *TermCtx) Conv(op Op, a *Term, to Sort) *Term {
+	// float32(float64(x)) == x for x float32 (widening is exact)
+	if op == OFToF && to.K == SF32 && a.op == OFToF && a.args[0].sort.K == SF32 {
+		return a.args[0]
+	}
+	if op == OFToF && a.sort == to {
+		return a
+	}
+	return c.mk(op, to, a)
+}
 
 // ---- printing ----
 
@@ -1036,3 +1055,17 @@ func (t *Term) Vars(seen map[int]bool, out *[]*Term) {
 }
 
 var _ = bits.Len
+
+// narrowF32 returns the float32 term x such that t == float64(x) exactly, or nil.
+func narrowF32(c *TermCtx, t *Term) *Term {
+	if t.op == OFToF && t.sort.K == SF64 && t.args[0].sort.K == SF32 {
+		return t.args[0]
+	}
+	if t.op == OConst && t.sort.K == SF64 {
+		f := math.Float64frombits(t.cval)
+		if float64(float32(f)) == f || f != f {
+			return c.F32(float32(f))
+		}
+	}
+	return nil
+}
